@@ -943,7 +943,8 @@ Proof.
 Qed.
 Lemma rel_spec_new r : new_only r = true -> rel_spec r = RSNew (rr_name r) (rr_ver r).
 Proof.
-  unfold new_only. destruct r as [n [q|] v ar pr]; cbn [rr_qual rr_name rr_ver]; intros H; [now rewrite andb_false_r in H|reflexivity].
+  unfold new_only, plain. destruct r as [n [q|] v ar pr]; cbn [rr_qual rr_name rr_ver rr_archs rr_profs]; intros H; [now rewrite andb_false_r in H|].
+  destruct ar; [discriminate|]. destruct pr; [reflexivity|discriminate].
 Qed.
 
 Lemma build_relation_greens_new e : forallb new_only e = true -> forall ts rs,
@@ -1464,18 +1465,6 @@ Proof.
   - exact T'.
   - intros g Hg Ha. apply rebase_attach_above; [lia|exact Ha].
   - intros j Hj Hl. rewrite O; [|exact Hj|lia]. now apply nth_error_app1.
-Qed.
-
-Lemma splice_new_insert_spec ts rs r tid ri T p kd cs idx n :
-  nth_error rs r = Some (Some (mk_hnd tid p)) -> nth_error ts tid = Some (mk_slot true ri T) ->
-  get_path T p = Some (Node kd cs) -> idx <= length cs ->
-  exists ts' F,
-    runs (splice_new r idx idx n) (mk_state ts rs) tt (mk_state ts' (map (option_map F) rs)) /\
-    nth_error ts' tid = Some (mk_slot true ri (upd_path T p (fun _ => Node kd (insert_at idx [n] cs)))) /\
-    (forall g, h_tid g < length ts -> above tid p g -> F g = g).
-Proof.
-  intros Hr HT HG Hidx. destruct (splice_new_insert_spec_o ts rs r tid ri T p kd cs idx n Hr HT HG Hidx) as (ts' & F & R & T' & A & _).
-  now exists ts', F.
 Qed.
 
 (* from "children replaced under F" to the node_op form *)
